@@ -44,7 +44,7 @@ RULE = ('one evaluation = one explored path of one editing operation on a skelet
         'distinct = distinct (skeleton, operation, decision trace) / distinct sequences; non-trivial = at least one citation crosses the edited position')
 EXPLANATION = ('citations are z3 integers flowing through incr_id_after/decr_id/replace_id; the post-condition "citation still denotes the same object" is '
                'a z3 validity query per path over all citation values')
-BUDGET_S = {'quick': 240, 'thorough': 1500}
+BUDGET_S = {'quick': 240, 'thorough': 900}
 
 
 def bounds(tier):
